@@ -36,6 +36,8 @@ def ev(e):
         return "undef"
     if op == "any01":
         return "any01"
+    if op == "any":
+        return "any"
     a = ev(e["a"])
     if a == "undef":
         return "undef"
@@ -80,6 +82,8 @@ def agrees(expected, observed, rtol=1e-9, atol=1e-11):
         return False
     if expected == "undef":
         return math.isnan(observed) or math.isinf(observed)
+    if expected == "any":
+        return True
     if expected == "any01":
         return 0.0 <= observed <= 1.0
     if math.isnan(expected):
